@@ -256,6 +256,26 @@ def locality(ctx: Ctx, tables: dict) -> None:
     base, _ = w.options([], "mypy.ini", ini_text([]))
     bsnap = snap(base, {"per_module_options"})
     bother = snap(base.clone_for_module("pk.b"), {"per_module_options"})
+    # correspondence for the model's `strictApplied`: which sections say `strict = True` ↦ do the strict
+    # assignments land on the global options
+    strict_dests = [d for d, v in tables["strict"] if v]
+    bit_cases = [[0], [1], [0, 1], [0, 0], [0, 1, 0], [0, 0, 1], [1, 0, 0]]
+    model = ctx.lean_driver("Driver/C17.lean", ["L " + ",".join(map(str, b)) for b in bit_cases])
+    for bits, mo in zip(bit_cases, model):
+        names = ["pk.a", "pk.b"]
+        text = ini_text([("strict", "True")] if bits[0] else [], [(names[i], [("strict", "True")] if b else [("ignore_errors", "True")])
+                                                                   for i, b in enumerate(bits[1:])])
+        o, err = w.options([], "mypy.ini", text)
+        if o is None:
+            raise ToolFailure(f"process_options rejected {text}: {err}")
+        real = int(any(getattr(o, d) != getattr(base, d) for d in strict_dests))
+        ctx.case(("STRICT", bits))
+        ctx.count("traces_validated_against_impl")
+        if str(real) != mo:
+            ctx.count("disagreements_checked")
+            ctx.violation(f"`strict` handling differs from the model for sections {bits}: global options changed = {real}, model {mo}",
+                          {"broken": "correspondence Driver/C17 `L` vs parse_config_file/set_strict_flags", "kind": "locality",
+                           "key": "strict", "value": "True", "config_name": "mypy.ini", "config_text": text}, found_input=False)
     keys = [(k, str(not attr[k]["bool"])) for k in tables["per_module"] if attr.get(k, {}).get("ty") == "bool"]
     keys += [("follow_imports", "skip"), ("always_true", "FOO"), ("disable_error_code", "misc"),
              ("enable_error_code", "misc"), ("strict", "True")]
@@ -367,6 +387,69 @@ def parsed_sections(ctx: Ctx) -> None:
                     report(ctx, {"class": "precedence", "module": m, "sections": list(combo), "source": cfg},
                                f"{cfg} with sections {list(combo)}: module {m} is checked with [{got}], documented precedence gives [{want}]",
                                {"kind": "parsed-sections", "config_name": cfg, "config_text": text, "module": m, "real": got, "documented": want})
+                    return
+
+
+SEC_KEYS = ["disallow_untyped_defs", "warn_return_any", "ignore_errors", "check_untyped_defs"]
+
+
+def table_text(o) -> str:
+    return ";".join("%s:%s" % (p, ",".join(f"{k}={show_val(v)}" for k, v in sorted(ch.items()))) for p, ch in o.per_module_options.items())
+
+
+def section_tables(ctx: Ctx) -> None:
+    """Config files whose sections name several patterns (`[mypy-a,b]`, `module = ["a", "b"]`), some pattern
+    named by two sections.  (i) correspondence: the table `parse_config_file` builds (keys in dict order, values)
+    vs the model's `iniSections` / `tomlSections`; (ii) oracle: section i sets its own key to True and nothing
+    else, so a module must have key i set iff some pattern of section i matches it — in both file formats."""
+    from harness.c17.resolution import doc_glob_match, run_driver_sharded
+    rng = ctx.rng
+    w = Work(ctx, "tables")
+    pats = ["pk.a", "pk.b", "pk.*", "*.a", "pk.a.*", "q"]
+    mods = ["pk.a", "pk.b", "pk.a.x", "pk", "q", "r.a"]
+    cases = [[["pk.a", "pk.b"], ["pk.a"]], [["pk.a"], ["pk.a", "pk.b"]], [["*.a", "pk.b"], ["pk.*"], ["*.a"]]]
+    for _ in range(ctx.pick(120, 1200)):
+        n = rng.randint(2, 4)
+        cases.append([rng.sample(pats, rng.randint(1, 2)) for _ in range(n)])
+    lines = []
+    for fs in cases:
+        body = "/".join("+".join(ps) + ":" + f"{SEC_KEYS[i]}=1,disable_error_code=[],enable_error_code=[]" for i, ps in enumerate(fs))
+        lines += [f"S ini {body}", f"S toml {body}"]
+    model = run_driver_sharded(ctx, lines)
+    for n, fs in enumerate(cases):
+        dup = len({p for ps in fs for p in ps}) < sum(len(ps) for ps in fs)
+        ini = "[mypy]\n" + "".join(f"[mypy-{','.join(ps)}]\n{SEC_KEYS[i]} = True\n" for i, ps in enumerate(fs))
+        toml = "[tool.mypy]\n" + "".join("[[tool.mypy.overrides]]\nmodule = [%s]\n%s = true\n" % (", ".join('"%s"' % p for p in ps), SEC_KEYS[i])
+                                           for i, ps in enumerate(fs))
+        for j, (cfg, text) in enumerate((("mypy.ini", ini), ("pyproject.toml", toml))):
+            if cfg == "mypy.ini" and len({",".join(ps) for ps in fs}) < len(fs):
+                ctx.dist("section_table", "excluded: two ini sections with the same header (configparser rejects the file)")
+                continue
+            o, err = w.options([], cfg, text)
+            if o is None or err:
+                raise ToolFailure(f"config file rejected: {err}\n{text}")
+            real = table_text(o)
+            ctx.case(("TABLE", cfg, fs), nontrivial=dup)
+            ctx.dist("section_table", f"{cfg} {'duplicate pattern' if dup else 'distinct patterns'}")
+            ctx.count("traces_validated_against_impl")
+            tie_broken = real != model[2 * n + j]
+            failed = False
+            for m in mods:
+                c = o.clone_for_module(m)
+                for i, ps in enumerate(fs):
+                    want = any(doc_glob_match(p, m) if "*" in p[:-1] else (m == p or (p.endswith(".*") and (m == p[:-2] or m.startswith(p[:-1])))) for p in ps)
+                    if getattr(c, SEC_KEYS[i]) != want and not failed:
+                        failed = True
+                        report(ctx, {"class": "duplicate-pattern-settings-lost" if dup else "section-not-applied", "source": "ini" if cfg != "pyproject.toml" else "toml"},
+                               f"{cfg}: section {i + 1} ({','.join(ps)}) sets {SEC_KEYS[i]} = True, module {m} "
+                               f"{'matches' if want else 'does not match'} it, but is checked with {SEC_KEYS[i]} = {getattr(c, SEC_KEYS[i])}",
+                               {"kind": "section-table", "config_name": cfg, "config_text": text, "module": m, "key": SEC_KEYS[i], "documented": want})
+            if tie_broken:
+                ctx.count("disagreements_checked")
+                if not failed:
+                    ctx.violation(f"section-table correspondence broken for {cfg} sections {fs}: code [{real}] model [{model[2 * n + j]}]",
+                                  {"broken": "correspondence Driver/C17 `S` vs config_parser.parse_config_file", "kind": "section-table",
+                                   "config_name": cfg, "config_text": text, "real": real, "model": model[2 * n + j]}, found_input=False)
                     return
 
 
@@ -503,8 +586,10 @@ def diagnostics_equivalence(ctx: Ctx, tables: dict, only_flags: set[str] | None 
     with ThreadPoolExecutor(max_workers=nw) as exr:
         chunks = [[j for j in jobs if j[0] % nw == i] for i in range(nw)]
         outs = list(exr.map(lambda ch: [one(j) for j in ch], chunks))
-    base = None
+    write_witness(dirs[0])
+    base = run_mypy(dirs[0], ["--config-file="], ".cachebase")
     for f, res in [x for o in outs for x in o]:
+        ctx.dist("diagnostics_flag_effect", "changes the witness output" if res["cli"] != base else "no visible effect on the witness")
         for src, out in res.items():
             ctx.case(("DIAG", f["long"][0], src), nontrivial=True)
             ctx.dist("diagnostics_source", src)
@@ -585,6 +670,23 @@ def findings_on_diagnostics(ctx: Ctx) -> None:
         fh.write("[mypy]\n[mypy-pk.a]\ndisallow_untyped_defs = True\n")
     single = run_mypy(d, [], ".c4")
     os.remove(os.path.join(d, "mypy.ini"))
+    # (3) a pattern named by two ini sections
+    with open(os.path.join(d, "mypy.ini"), "w") as fh:
+        fh.write("[mypy]\n[mypy-pk.a,pk.b]\ndisallow_untyped_defs = True\n[mypy-pk.a]\nwarn_return_any = True\n")
+    dup_ini = run_mypy(d, [], ".c5")
+    os.remove(os.path.join(d, "mypy.ini"))
+    with open(os.path.join(d, "pyproject.toml"), "w") as fh:
+        fh.write('[tool.mypy]\n[[tool.mypy.overrides]]\nmodule = ["pk.a", "pk.b"]\ndisallow_untyped_defs = true\n'
+                 '[[tool.mypy.overrides]]\nmodule = "pk.a"\nwarn_return_any = true\n')
+    dup_toml = run_mypy(d, [], ".c6")
+    os.remove(os.path.join(d, "pyproject.toml"))
+    ctx.case(("FIND", "duplicate pattern"))
+    if dup_ini != dup_toml:
+        report(ctx, {"class": "duplicate-pattern-settings-lost", "source": "ini"},
+               "[mypy-pk.a,pk.b] disallow_untyped_defs=True + [mypy-pk.a] warn_return_any=True: mypy.ini does not report pk/a.py, "
+               "the same tables in pyproject.toml do",
+               {"kind": "finding-diagnostics", "files": files, "config_text": "[mypy]\n[mypy-pk.a,pk.b]\ndisallow_untyped_defs = True\n[mypy-pk.a]\nwarn_return_any = True\n",
+                "ini_output": dup_ini, "toml_output": dup_toml})
     ctx.case(("FIND", "per-module strict"))
     if "pk/b.py" in strict and "pk/b.py" not in single:
         report(ctx, {"class": "per-module-leaks-global", "key": "strict"},
